@@ -619,6 +619,40 @@ fn frag_strategy(t: Tier) -> BoxedStrategy<FragRaw> {
         .boxed()
 }
 
+// ------------------------------------------------------------------------------------------
+// (d) the boundary-directed generators of the other properties, judged for panics only
+
+fn panics_only(prop: &str, inner: Outcome) -> Outcome {
+    let mut o = Outcome::default();
+    o.nontrivial = inner.nontrivial;
+    o.sub_evals = inner.sub_evals;
+    if let Some(p) = inner.aborted_by_panic {
+        o.fail("no_panic", format!("no_panic:via_{}:{}", prop, p), format!("a public entry point panicked on a case of {}'s generator: {}", prop, p));
+    }
+    o
+}
+fn ev_c16_fields(c: &crate::props::c16::FieldCase) -> Outcome {
+    panics_only("C16.fields", crate::props::c16::eval_fields(c))
+}
+fn ev_c16_fragnum(c: &crate::props::c16::FragNum) -> Outcome {
+    panics_only("C16.fragmented", crate::props::c16::eval_fragnum(c))
+}
+fn ev_c16_timeline(c: &crate::scenario::ValidCase) -> Outcome {
+    panics_only("C16.timeline", crate::props::c16::eval_timeline(c))
+}
+fn ev_c07_key(c: &crate::props::c07::KeyCase) -> Outcome {
+    panics_only("C07.key", crate::props::c07::eval_key(c))
+}
+fn ev_c07_init(c: &crate::props::c07::InitCase) -> Outcome {
+    panics_only("C07.init", crate::props::c07::eval_init(c))
+}
+fn ev_long(c: &crate::scenario::ValidCase) -> Outcome {
+    panics_only("long_recordings", crate::props::c01::eval(c))
+}
+fn s_key_any(t: Tier) -> BoxedStrategy<crate::props::c07::KeyCase> {
+    prop_oneof![crate::props::c07::s_h264(t), crate::props::c07::s_h265(t), crate::props::c07::s_av1(t), crate::props::c07::s_vp9(t)].boxed()
+}
+
 pub fn def() -> PropertyDef {
     PropertyDef {
         fuzz_targets: &["c12_bytes", "c12_api", "c12_frag"],
@@ -639,6 +673,14 @@ pub fn def() -> PropertyDef {
             Box::new(PSub { name: "parsers", quick: 40000, thorough: 1500000, strat: parser_strategy, eval: eval_parsers }),
             Box::new(PSub { name: "progressive_api", quick: 12000, thorough: 600000, strat: api_strategy, eval: eval_api }),
             Box::new(PSub { name: "fragmented_api", quick: 12000, thorough: 600000, strat: frag_strategy, eval: eval_frag }),
+            // boundary-directed generators borrowed from C16 / C07 (values straddling 2^8 / 2^16 / 2^31 / 2^32, parameter sets up to
+            // 65 535 bytes, every AV1 header branch) and the long / large recordings: judged here for panics and overflow only
+            Box::new(PSub { name: "borrowed_c16_fields", quick: 6000, thorough: 150000, strat: crate::props::c16::fields_strategy, eval: ev_c16_fields }),
+            Box::new(PSub { name: "borrowed_c16_fragmented", quick: 6000, thorough: 150000, strat: crate::props::c16::fragnum_strategy, eval: ev_c16_fragnum }),
+            Box::new(PSub { name: "borrowed_c16_timeline", quick: 6000, thorough: 150000, strat: crate::props::c16::timeline_strategy, eval: ev_c16_timeline }),
+            Box::new(PSub { name: "borrowed_c07_keyframes", quick: 12000, thorough: 400000, strat: s_key_any, eval: ev_c07_key }),
+            Box::new(PSub { name: "borrowed_c07_init", quick: 6000, thorough: 150000, strat: crate::props::c07::s_init, eval: ev_c07_init }),
+            Box::new(LSub { name: "long_recordings", cases: crate::scenario::long_cases_all, eval: ev_long, note: crate::scenario::LONG_NOTE }),
         ],
     }
 }
